@@ -313,7 +313,8 @@ theorem consumer_sees_producer_alive_width (p : Prog) (hwf : WF p) (oe : Nat →
 /-- **Producer pruning lowers consumer cost** (conv→conv, conv→flatten→linear, linear→linear, …;
 `params_bit`, hard mode): if the consumer `i` is not depthwise and reads producer `j` through
 element-wise ops and flattens, then strictly fewer alive channels of `j` mean a strictly lower
-charge for `i`, whatever the type of `i`. -/
+charge for `i`, whatever the type of `i`.  Without the hypothesis `Reaches` the statement is false on
+the tree under test (`input_component_producer_invisible` below, open finding). -/
 theorem producer_pruning_lowers_consumer_cost (p : Prog) (hwf : WF p) (i j : Nat) (m : Rat)
     (hi : i < p.length) (hok : LayerOK (p.nd i)) (hdw : (p.nd i).kind ≠ .dw)
     (r : Reaches p (p.nd i).a j m) (hm : 0 < m)
